@@ -43,10 +43,15 @@ class DefaultDeploymentManager(DeploymentManager):
                 self.events_map[deployment_name] = asyncio.Event()
                 self.dependency_graph[deployment_name] = set()
                 connector_type = connector_classes[deployment_config.type]
-                deployment_config = await self._inner_deploy(
-                    connector_type=connector_type,
-                    deployment_config=deployment_config,
-                )
+                try:
+                    deployment_config = await self._inner_deploy(
+                        connector_type=connector_type,
+                        deployment_config=deployment_config,
+                    )
+                except Exception:
+                    # Wake up the requests waiting for this deployment
+                    self.events_map[deployment_name].set()
+                    raise
                 if deployment_config.lazy:
                     connector = FutureConnector(
                         name=deployment_name,
@@ -71,6 +76,9 @@ class DefaultDeploymentManager(DeploymentManager):
                         await connector.deploy(deployment_config.external)
                     except Exception:
                         self.deployments_map.pop(deployment_name)
+                        # A failed deployment does not keep its inner deployments alive
+                        for deps in self.dependency_graph.values():
+                            deps.discard(deployment_name)
                         self.events_map[deployment_name].set()
                         raise
                     if logger.isEnabledFor(logging.INFO):
@@ -197,14 +205,12 @@ class DefaultDeploymentManager(DeploymentManager):
                     if not config.external:
                         logger.info(f"COMPLETED undeployment of {deployment_name}")
                 self.events_map[deployment_name].set()
-            # Remove the current environment from all the other dependency graphs
-            for name, deps in list(
-                (k, v) for k, v in self.dependency_graph.items() if k != deployment_name
-            ):
-                deps.discard(deployment_name)
-                # If there are no more dependencies, undeploy the environment
-                if len(deps) == 0:
-                    await self.undeploy(name)
+                # Remove the undeployed environment from all the other dependency graphs
+                for name, deps in list(self.dependency_graph.items()):
+                    deps.discard(deployment_name)
+                    # If there are no more dependencies, undeploy the environment
+                    if len(deps) == 0:
+                        await self.undeploy(name)
 
     async def undeploy_all(self) -> None:
         undeployments = []
